@@ -175,6 +175,7 @@ def finish(prop, tier, seed, t0, pstat, sl, known_hits):
             "rule": sl["rule"], "samples": sl["samples"][:8],
             "model_vs_code_disagreements": len(sl["disagreements"]),
             "oracle_violations": len(sl["violations"]), "known_finding_hits": {k: v for k, v in known_hits.items()},
+            "extraction_cross_check": sl.get("xcheck", {}),
             **sl.get("extra", {}),
         },
         "assumptions": sl.get("assumptions", []),
